@@ -8,8 +8,10 @@ verus! {
 pub mod unit_mh {
     use vstd::prelude::*;
     use core::marker::PhantomData;
+    use vstd::std_specs::iter::IteratorSpec;
     use super::fl::*;
     use super::rng::*;
+    use super::rng as rand;
     broadcast use super::fl::fl_axioms, super::rng::rng_axioms;
 
     // R-float: the generic parameter `F: num_traits::Float` of the MH types is the abstract float
@@ -17,16 +19,25 @@ pub mod unit_mh {
 
     // ---- user-supplied traits: ASSUMED laws (the only facts the generic proofs may use) ----
     /// `Target<T, F>`: `unnorm_logp` is a function of the position (law: it returns `self.lp(position)`).
-    pub trait Target<T>: Sized {
+    /// ASSUMED law for user `Clone` impls (derive(Clone) semantics): the clone is indistinguishable from the original.
+    pub trait VClone: Sized {
+        fn clone(&self) -> (r: Self) ensures r == *self;
+    }
+    pub trait Target<T>: VClone {
         spec fn lp(&self, x: Seq<T>) -> Fl;
         fn unnorm_logp(&self, position: &[T]) -> (r: Fl)
             ensures r == self.lp(position@);
     }
     /// `Proposal<T, F>`: `logp(from, to)` is a function `lq` of its arguments that `sample` does not change;
     /// `sample` is an arbitrary relation between (value before, current point, value after, candidate).
-    pub trait Proposal<T>: Sized {
+    pub trait Proposal<T>: VClone {
         spec fn lq(&self, from: Seq<T>, to: Seq<T>) -> Fl;
         spec fn sample_rel(pre: Self, cur: Seq<T>, post: Self, y: Seq<T>) -> bool;
+        /// the random stream the proposal will consume next (C08); `set_seed` determines it
+        spec fn stream(&self) -> RngState;
+        fn set_seed(self, seed: u64) -> (r: Self)
+            ensures r.stream() == seeded(seed),
+                forall |a: Seq<T>, b: Seq<T>| r.lq(a, b) == self.lq(a, b);
         fn sample(&mut self, current: &[T]) -> (r: Vec<T>)
             ensures
                 Self::sample_rel(*old(self), current@, *final(self), r@),
@@ -39,8 +50,110 @@ pub mod unit_mh {
         fn step(&mut self) -> &Vec<T>;
     }
 
-    pub struct MHMarkovChain<S, D, Q> {
-        //@fields file=src/metropolis_hastings.rs name=MHMarkovChain drop=phantom
+    pub struct MHMarkovChain<S, T, D, Q> {
+        //@fields file=src/metropolis_hastings.rs name=MHMarkovChain
+    }
+    pub struct MetropolisHastings<S, T, D, Q> {
+        //@fields file=src/metropolis_hastings.rs name=MetropolisHastings
+    }
+
+    /// PRNG quality assumption used by C08 only: different 64-bit seeds give different generator states.
+    pub axiom fn ax_seeded_injective(a: u64, b: u64) requires a != b ensures seeded(a) != seeded(b);
+
+    /// (a + i) mod 2^64
+    pub open spec fn u64_wadd(a: u64, i: int) -> u64 { ((a as int + i) % 0x1_0000_0000_0000_0000) as u64 }
+
+    /// the per-chain acceptance seed documented for `seed`: 1 + seed + i, taken modulo 2^64
+    pub open spec fn mh_chain_seed(seed: u64, i: int) -> u64 { ((1 + seed as int + i) % 0x1_0000_0000_0000_0000) as u64 }
+
+    /// C08 for one sampler value: pairwise distinct proposal streams and acceptance streams, and no
+    /// proposal stream equal to any acceptance stream
+    pub open spec fn mh_streams_distinct<S, D: Target<S>, Q: Proposal<S>>(chains: Seq<MHMarkovChain<S, Fl, D, Q>>) -> bool {
+        &&& forall |i: int, j: int| 0 <= i < j < chains.len() ==> chains[i].proposal.stream() != chains[j].proposal.stream()
+        &&& forall |i: int, j: int| 0 <= i < j < chains.len() ==> state(chains[i].rng) != state(chains[j].rng)
+        &&& forall |i: int, j: int| 0 <= i < chains.len() && 0 <= j < chains.len() ==> chains[i].proposal.stream() != state(chains[j].rng)
+    }
+
+    impl<S, D: Target<S>, Q: Proposal<S>> MHMarkovChain<S, Fl, D, Q> {
+        pub fn new(target: D, proposal: Q, initial_state: Vec<S>) -> (r: Self)
+            ensures
+                r.current_state@ == initial_state@,   // [C09.mh_chain_new_state]
+                r.target == target,
+                r.proposal == proposal,
+        //@body id=mh_chain_new file=src/metropolis_hastings.rs impl_self=MHMarkovChain name=new props=C09,C08
+        //@sig fn new (target : D , proposal : Q , initial_state : Vec < S >) -> Self
+        //@rules
+        //@end
+    }
+
+    impl<S, D: Target<S>, Q: Proposal<S>> MetropolisHastings<S, Fl, D, Q> {
+        pub fn new(target: D, proposal: Q, initial_states: Vec<Vec<S>>) -> (r: Self)
+            ensures
+                r.chains@.len() == initial_states@.len(),                                                          // [C09.mh_new_count]
+                forall |c: int| 0 <= c < initial_states@.len() ==> (#[trigger] r.chains@[c]).current_state@ == initial_states@[c]@,   // [C09.mh_new_row_c_is_state_c]
+                forall |c: int| 0 <= c < r.chains@.len() ==> (#[trigger] r.chains@[c]).target == target,
+                forall |c: int, a: Seq<S>, b: Seq<S>| 0 <= c < r.chains@.len() ==> (#[trigger] r.chains@[c].proposal.lq(a, b)) == proposal.lq(a, b),
+                forall |i: int, j: int| 0 <= i < j < r.chains@.len() ==> r.chains@[i].proposal.stream() != r.chains@[j].proposal.stream(),  // [C08.mh_new_proposal_streams_distinct]
+        //@body id=mh_new file=src/metropolis_hastings.rs impl_self=MetropolisHastings name=new props=C09,C08
+        //@sig fn new (target : D , proposal : Q , initial_states : Vec < Vec < S > >) -> Self
+        //@rules R-enum
+        //@outtype chains Vec<MHMarkovChain<S, Fl, D, Q>>
+        //@anchor snap scope=fn pos=start
+        //@| let ghost init0 = initial_states@;
+        //@loop 1 iter=it
+        //@| invariant
+        //@|     it.history@ + it.iter.remaining() == init0,
+        //@|     chains@.len() == it.history@.len(), i == chains@.len(), i + it.iter.remaining().len() == init0.len(),
+        //@|     forall |c: int| 0 <= c < chains@.len() ==> (#[trigger] chains@[c]).current_state@ == init0[c]@ && chains@[c].target == target
+        //@|         && chains@[c].proposal.stream() == seeded(u64_wadd(base_seed, c)),
+        //@|     forall |c: int, a: Seq<S>, b: Seq<S>| 0 <= c < chains@.len() ==> (#[trigger] chains@[c].proposal.lq(a, b)) == proposal.lq(a, b),
+        //@anchor cnt scope=loop:1 pos=after match="^chains \\. push"
+        //@| proof { assert(chains.len() == chains@.len()); }
+        //@anchor fin scope=fn pos=before match="^Self \\{"
+        //@| proof {
+        //@|     assert forall |i: int, j: int| 0 <= i < j < chains@.len() implies chains@[i].proposal.stream() != chains@[j].proposal.stream() by {
+        //@|         ax_seeded_injective(u64_wadd(base_seed, i), u64_wadd(base_seed, j));
+        //@|     }
+        //@| }
+        //@end
+
+        pub fn seed(self, seed: u64) -> (r: Self)
+            ensures
+                r.chains@.len() == self.chains@.len(),
+                forall |i: int| 0 <= i < r.chains@.len() ==> state((#[trigger] r.chains@[i]).rng) == seeded(mh_chain_seed(seed, i)),   // [C07.mh_per_chain_seed]
+                forall |i: int| 0 <= i < r.chains@.len() ==> (#[trigger] r.chains@[i]).current_state == self.chains@[i].current_state
+                    && r.chains@[i].target == self.chains@[i].target,                                                                   // [C07.mh_seed_frame]
+                forall |i: int, a: Seq<S>, b: Seq<S>| 0 <= i < r.chains@.len() ==> (#[trigger] r.chains@[i].proposal.lq(a, b)) == self.chains@[i].proposal.lq(a, b),
+                r.target == self.target,
+                mh_streams_distinct(r.chains@),                                                                                          // [C08.mh_seed_streams_distinct]
+        //@body id=mh_seed file=src/metropolis_hastings.rs impl_self=MetropolisHastings name=seed props=C07,C08
+        //@sig fn seed (mut self , seed : u64) -> Self
+        //@rules R-mutself R-enum
+        //@anchor n0 scope=fn pos=after match="^let n_chains"
+        //@| proof { ax_vec_len_le_isize_max(&__vx_self.chains); }
+        //@loop 1 iter=it
+        //@| invariant
+        //@|     it.iter.end == self.chains@.len(), n_chains == self.chains@.len(), n_chains <= isize::MAX as int,
+        //@|     __vx_self.chains@.len() == self.chains@.len(),
+        //@|     __vx_self.target == self.target,
+        //@|     forall |k: int| 0 <= k < i ==> state((#[trigger] __vx_self.chains@[k]).rng) == seeded(mh_chain_seed(seed, k))
+        //@|         && __vx_self.chains@[k].proposal.stream() == seeded(u64_wadd(mh_chain_seed(seed, k), n_chains as int)),
+        //@|     forall |k: int| 0 <= k < self.chains@.len() ==> (#[trigger] __vx_self.chains@[k]).current_state == self.chains@[k].current_state
+        //@|         && __vx_self.chains@[k].target == self.chains@[k].target,
+        //@|     forall |k: int, a: Seq<S>, b: Seq<S>| 0 <= k < self.chains@.len() ==> (#[trigger] __vx_self.chains@[k].proposal.lq(a, b)) == self.chains@[k].proposal.lq(a, b),
+        //@anchor fin scope=fn pos=end
+        //@| proof {
+        //@|     let cs = __vx_self.chains@;
+        //@|     let n = n_chains as int;
+        //@|     assert forall |i: int, j: int| 0 <= i < j < cs.len() implies cs[i].proposal.stream() != cs[j].proposal.stream() && state(cs[i].rng) != state(cs[j].rng) by {
+        //@|         ax_seeded_injective(u64_wadd(mh_chain_seed(seed, i), n), u64_wadd(mh_chain_seed(seed, j), n));
+        //@|         ax_seeded_injective(mh_chain_seed(seed, i), mh_chain_seed(seed, j));
+        //@|     }
+        //@|     assert forall |i: int, j: int| 0 <= i < cs.len() && 0 <= j < cs.len() implies cs[i].proposal.stream() != state(cs[j].rng) by {
+        //@|         ax_seeded_injective(u64_wadd(mh_chain_seed(seed, i), n), mh_chain_seed(seed, j));
+        //@|     }
+        //@| }
+        //@end
     }
 
     // ---- C01: the acceptance rule, written from the property statement ----
@@ -52,13 +165,13 @@ pub mod unit_mh {
     pub open spec fn mh_rule<T, D: Target<T>, Q: Proposal<T>>(d: D, q: Q, x: Seq<T>, y: Seq<T>, u: Fl, next: Seq<T>) -> bool {
         next == (if xr_lt(xr_ln(val(u)), mh_log_ratio(d, q, x, y)) { y } else { x })
     }
-    pub open spec fn mh_step_post<T, D: Target<T>, Q: Proposal<T>>(pre: MHMarkovChain<T, D, Q>, post: MHMarkovChain<T, D, Q>) -> bool {
+    pub open spec fn mh_step_post<T, D: Target<T>, Q: Proposal<T>>(pre: MHMarkovChain<T, F, D, Q>, post: MHMarkovChain<T, F, D, Q>) -> bool {
         exists |y: Seq<T>|
             #[trigger] Q::sample_rel(pre.proposal, pre.current_state@, post.proposal, y)
             && mh_rule(pre.target, pre.proposal, pre.current_state@, y, unif_out(state(pre.rng)), post.current_state@)
     }
 
-    impl<T, D: Target<T>, Q: Proposal<T>> MarkovChain<T> for MHMarkovChain<T, D, Q> {
+    impl<T, D: Target<T>, Q: Proposal<T>> MarkovChain<T> for MHMarkovChain<T, F, D, Q> {
         fn step(&mut self) -> (ret: &Vec<T>)
             ensures
                 mh_step_post(*old(self), *final(self)),                                   // [C01.accept_iff]
